@@ -49,7 +49,9 @@ Boot18 == /\ IsEvent("boot18")
 RClose == /\ IsEvent("rclose")
           /\ LET ev == Trace[l] IN
              Report(l, (IF ev.panic = "" /\ ev.dur <= ClosePrompt THEN {} ELSE {"Inv_C18_CloseReturns"})
-                    \cup (IF ev.rebound /\ ev.fds <= ev.basefds THEN {} ELSE {"Inv_C18_NoLeak"}))
+                    \cup (IF ev.rebound /\ ev.fds <= ev.basefds THEN {} ELSE {"Inv_C18_NoLeak"})
+                    \* ... and not a moment later: when Close has returned every listening address is free
+                    \cup (IF ev.boundatreturn = <<>> THEN {} ELSE {"Inv_C18_NoListenerAtReturn"}))
           /\ UNCHANGED <<ex, closeAt, closeEnd>>
 
 \* the bulk phase that uses up a connection's transaction IDs (its exchanges are not recorded one by one)
